@@ -18,6 +18,10 @@ CHECKS['C04'] = ('E4', 'model_checking',
     'Every program of the grammar (1-3 handlers per event with distinct priorities from 12 shapes: return value/None, raise, generators yielding 0-2 values, generators raising at step 0/1; all success/failure/notify/success_channels flag sets; optional nested event fired from a handler) is executed on a fresh real tree driven by tick() to quiescence; the Value, the errors flag, the per-raise exception/failure events, the exactly-once-and-late success event, every handler and a later sentinel event are judged on every execution.',
     'Trusted: oracle transcribed from the statement; result order taken from the ghost log (task stepping order within one tick is whatever the set gives and is observed, not assumed); int results only.',
     'bounded-exhaustive program enumeration on the real dispatcher/task machinery', 'DESIGN.md 6/C04')
+CHECKS['C05'] = ('E4', 'model_checking',
+    'Every event tree of the grammar (ordered trees, <=5/6 nodes, fan-out <=2, depth <=3; each edge fired by the plain handler or by a later generator step; leaves cancelled right after firing, nodes stopped or raising, also in generator steps; nested complete-requesting descendant; two simultaneous roots) is executed under the real run(); on every execution <name>_complete must be dispatched exactly once per requesting event, after the last handler activity of every non-cancelled member of the ghost causal closure, and within the horizon (quiescence is a state, so never is decidable).',
+    'Trusted: ghost causality tree recorded by generated handlers (independent of Event.cause); driver = generate_events handler inside the real run().',
+    'bounded-exhaustive event-tree enumeration executed under the real run() loop', 'DESIGN.md 6/C05')
 NOT_YET = {}
 def main():
     props = [json.loads(l) for l in open(os.path.join(HERE, 'properties.jsonl'))]
